@@ -2,13 +2,14 @@
 from . import termgen as tg
 
 
-def px(x, y, e):
-    return "px %d %d %s" % (x, y, tg.fmt_el(e))
+def px(x, y, e, how="px"):
+    return "%s %d %d %s" % (how, x, y, tg.fmt_el(e))
 
 
 def frames(rng, nframes, declare=True, maxw=8, maxh=5):
     w, h = rng.choice([(1, 1), (2, 2), (3, 2), (4, 3), (rng.randrange(1, maxw + 1), rng.randrange(1, maxh + 1))])
-    parts = ["S %d" % rng.choice([0, 0, 16])]
+    # bits 0-4 as for terminals; bits 5-11 = non-default values of the capability flags the library never consults
+    parts = ["S %d" % (rng.choice([0, 0, 16]) | (rng.choice([0, 0, 1 << rng.randrange(7), rng.randrange(128)]) << 5))]
     if declare:
         parts.append("tsz %d %d" % (w, h))
     parts.append("cv %d %d" % (w, h))
@@ -55,7 +56,7 @@ def frames(rng, nframes, declare=True, maxw=8, maxh=5):
                 e = tg.element(rng, prev)
             cells[(x, y)] = e
             prev = e
-            parts.append(px(x, y, e))
+            parts.append(px(x, y, e, rng.choice(["px", "px", "px", "pi", "pr"])))
         parts.append("dr")
         if rng.random() < 0.15:
             parts.append("dr")                                # same canvas again
